@@ -51,6 +51,11 @@ float nondet_f32(void); double nondet_f64(void);
 #define VP_POINT(l) ((void)0)
 #define VP_TID_CATCHALL 9999
 
+#ifdef VP_THREADS
+#define VP_TLS2 __thread
+#else
+#define VP_TLS2
+#endif
 /* pending exception record (DESIGN 2.3) */
 struct vp_exc_t { int active; void *obj; int tid; };
 #ifdef VP_THREADS
@@ -60,7 +65,10 @@ extern __thread struct vp_exc_t vp_caught;
 extern struct vp_exc_t vp_exc;
 extern struct vp_exc_t vp_caught;
 #endif
-static inline void vp_throw(void *obj, int tid){ vp_exc.active = 1; vp_exc.obj = obj; vp_exc.tid = tid; }
+extern VP_TLS2 int vp_nothrow_flag;
+static inline void vp_throw(void *obj, int tid){
+  if (vp_nothrow_flag) { __CPROVER_assert(0, "VP:unexpected C++ exception in a no-throw region"); __CPROVER_assume(0); }
+  vp_exc.active = 1; vp_exc.obj = obj; vp_exc.tid = tid; }
 
 /* race instrumentation (DESIGN C12): ghost reader/writer marks on declared-shared regions */
 #ifdef VP_RACE
@@ -82,7 +90,7 @@ extern const u8 *vp_sh_base; extern u64 vp_sh_size; extern u8 vp_sh_w[]; extern 
    object sends cbmc into the array theory and does not finish); the requested size is kept in a ghost table
    indexed by object id and every access through a possibly-heap pointer is checked against it (VP_CHK). */
 #ifndef VP_RECLIMIT
-#define VP_RECLIMIT 3
+#define VP_RECLIMIT 2
 #endif
 #ifdef VP_THREADS
 #define VP_TLS __thread
@@ -98,11 +106,11 @@ extern const u8 *vp_sh_base; extern u64 vp_sh_size; extern u8 vp_sh_w[]; extern 
 #else
 #define VP_CHK(p,sz) __CPROVER_assert(vp_objsz[__CPROVER_POINTER_OBJECT(p)] == 0 || (u64)__CPROVER_POINTER_OFFSET(p) + (sz) < vp_objsz[__CPROVER_POINTER_OBJECT(p)], "MEM:access beyond the requested size of a heap block")
 #endif
-extern u64 vp_objsz[256];
+extern u64 vp_objsz[1024];
 /* symbolic-length byte operations as plain loops (cbmc's built-in array copy with a symbolic size does not terminate in post-processing) */
-static inline void vp_memcpy(u8 *d, const u8 *s, u64 n){ for (u64 i = 0; i < n; i++) { VP_CHK(d+i,1); VP_CHK(s+i,1); d[i] = s[i]; } }
-static inline void vp_memmove(u8 *d, const u8 *s, u64 n){ if ((u64)d <= (u64)s || (u64)d >= (u64)s + n) { for (u64 i = 0; i < n; i++) d[i] = s[i]; } else { for (u64 i = n; i > 0; i--) d[i-1] = s[i-1]; } }
-static inline void vp_memset(u8 *d, u8 c, u64 n){ for (u64 i = 0; i < n; i++) d[i] = c; }
+static inline void vp_memcpy(u8 *d, const u8 *s, u64 n){ if(n){ VP_CHK(d+n-1,1); VP_CHK(s+n-1,1); memcpy(d,s,n);} }
+static inline void vp_memmove(u8 *d, const u8 *s, u64 n){ if(n){ VP_CHK(d+n-1,1); VP_CHK(s+n-1,1); memmove(d,s,n);} }
+static inline void vp_memset(u8 *d, u8 c, u64 n){ if(n){ VP_CHK(d+n-1,1); memset(d,c,n);} }
 static inline u32 vp_ctlz32(u32 x){ u32 n=0; if(!x) return 32; while(!(x&0x80000000u)){x<<=1;n++;} return n; }
 static inline u64 vp_ctlz64(u64 x){ u64 n=0; if(!x) return 64; while(!(x&0x8000000000000000ull)){x<<=1;n++;} return n; }
 static inline u32 vp_cttz32(u32 x){ u32 n=0; if(!x) return 32; while(!(x&1)){x>>=1;n++;} return n; }
